@@ -18,9 +18,9 @@ CONFIG = {
     'quick': {'shards': 16, 'budget_s': 150, 'n_mols': 900, 'n_params': 5, 'k_renum': 2,
               'floors': {'evaluations': 15000, 'distinct_nontrivial': 3000, 'linear.compared': 4000, 'morgan.compared': 4000,
                          'folding.compared': 6000, 'renumbered.compared': 1200, 'dicts.compared': 800, 'history.steps': 1200}},
-    'thorough': {'shards': 16, 'budget_s': 1800, 'n_mols': 4200, 'n_params': 20, 'k_renum': 6,
+    'thorough': {'shards': 16, 'budget_s': 1800, 'n_mols': 4200, 'n_params': 40, 'k_renum': 10,
                  'floors': {'evaluations': 300000, 'distinct_nontrivial': 50000, 'linear.compared': 80000, 'morgan.compared': 80000,
-                            'folding.compared': 120000, 'renumbered.compared': 25000, 'dicts.compared': 10000, 'history.steps': 6000}},
+                            'folding.compared': 120000, 'renumbered.compared': 25000, 'dicts.compared': 6000, 'history.steps': 6000}},
 }
 
 
